@@ -2,7 +2,6 @@ package main
 
 import "verifharness/vkit"
 
-func c49(r *vkit.Run) {}
 func c50(r *vkit.Run) {}
 func c51(r *vkit.Run) {}
 func c53(r *vkit.Run) {}
